@@ -323,8 +323,11 @@ def make_cases(ctx, rng, cd, witnesses, gdict):
             add("F", fr, "valid-smallcap", dict_=d, cap=rng.randrange(len(x)), base=None)
     nmut = 1700 if quick else 16000
     pool = [v for v in valid if len(v[0]) <= 6000] or valid
+    mid = [v for v in valid if len(v[0]) <= 45000] or valid
+    big = [v for v in valid if len(v[0]) > 45000]
+    nbig = (30 if quick else 400) if big else 0        # the reference decoder costs seconds on a 128 KiB frame: few, but some
     for i in range(nmut):
-        fr, st, d, x = rng.choice(pool if rng.random() < 0.9 else valid)
+        fr, st, d, x = rng.choice(big) if i < nbig else rng.choice(pool if rng.random() < 0.9 else mid)
         m, tag = mutate(rng, fr, st, others)
         if rng.random() < 0.15:
             m, tag2 = mutate(rng, m, st if len(m) == len(fr) else None, others) if m else (m, "none")
@@ -1017,10 +1020,13 @@ def run(ctx):
         "FSE descriptions / last bitstream bytes / checksum, truncation (every byte for small frames), extension, block splicing between frames, "
         "(c) random bytes behind a valid magic, random structured headers, skippable frames, (d) dictionaries: random bytes, valid header with "
         "mutated entropy tables, on the DDict/DCtx and CDict sides, (e) legacy v0.5-v0.7 frames from tests/legacy.c mutated (sanitizer only), "
-        "(f) multi-DDict insertion sequences with dictIDs colliding in the last slot, dictID 0, replacement, growth; every input goes through "
-        "one-shot, DCtx, DDict, multi-DDict, streaming under two segmentations (incl. byte-by-byte), buffer-less, block-level, and the inspectors in "
-        "an ASan+UBSan build; distinct = (R's verdict: trace signature or (class, site)) x libzstd verdict x origin, watchdog trace shapes, hash-set "
-        "shapes; non-trivial = not an empty success")
+        "(f) multi-DDict insertion sequences with dictIDs colliding in the last slot, dictID 0, replacement, growth, (g) literals sections (raw / RLE "
+        "synthetic over sizes x capacities x block limits at every threshold, Huffman sections of the real frames incl. > 64 KiB literals) against "
+        "the placement model, (h) small-window frames that make the streaming ring buffer restart, traced block by block against the ring model, "
+        "(i) entropy-table descriptions (real, crafted, mutated) through HUF_readStats / FSE_readNCount with exact-size outputs against R's readers; "
+        "every frame-level input goes through one-shot, DCtx, DDict, multi-DDict, streaming under two segmentations (incl. byte-by-byte), buffer-less, "
+        "block-level, and the inspectors in an ASan+UBSan build; distinct = (R's verdict: trace signature or (class, site)) x libzstd verdict x origin, "
+        "watchdog trace shapes, hash-set shapes, placement shapes, ring shapes, reader verdicts; non-trivial = not an empty success")
     ctx.prove()
     npmax = gen_const("NO_FORWARD_PROGRESS_MAX")
     model_exe = core.build_extracted("c03model", "Extract/Extract_C03.v", "c03_driver.ml")
@@ -1040,6 +1046,15 @@ def run(ctx):
             i = rp["line"].split(" ")[1]
             if crashes or "H %s %s" % (i, cout.get(i, "").split(" sel=")[0]) != (mout[0] if mout else ""):
                 ctx.violation(rp, what="replay: multi-DDict hash set still differs from the model / traps")
+        elif rp.get("kind") == "entropy":
+            en = core.build_harness("c03_entropy", ["c03_entropy.c"], variant="asan", extra_flags=["-w"])
+            cout, crashes = run_lines(en, [rp["line"]], nproc=1, out_id_index=1)
+            mout = run_model(model_exe, [rp["line"]])
+            core.log("impl :", cout, [x[1:] for x in crashes])
+            core.log("model:", mout)
+            i = rp["line"].split(" ")[1]
+            if crashes or (cout.get(i, "").startswith("OK") and not (mout and mout[0].split(" ", 2)[2] == cout.get(i))):
+                ctx.violation(rp, what="replay: entropy table reader still traps / accepts what the reference reader does not accept identically")
         elif rp.get("kind") == "litbuf":
             lb = core.build_harness("c03_litbuf", ["c03_litbuf.c"], variant="asan", extra_flags=["-w"])
             cout, crashes = run_lines(lb, [rp["line"]], nproc=1, out_id_index=1)
@@ -1073,6 +1088,7 @@ def run(ctx):
     gdict = get_gdict(exe)
     cases = make_cases(ctx, rng, cd, witnesses, gdict)
     litbuf_tie(ctx, model_exe, ctx.c03_valid)
+    entropy_tie(ctx, model_exe, ctx.c03_valid, gdict)
     t0 = time.time()
     out, crashes = run_lines(exe, [case_line(c) for c in cases])
     core.log("asan harness: %d cases in %.1fs (%d crashes)" % (len(cases), time.time() - t0, len(crashes)))
